@@ -3,6 +3,7 @@ package sym
 import (
 	"fmt"
 	"os"
+	"sort"
 	"go/constant"
 	"go/token"
 	"go/types"
@@ -389,6 +390,8 @@ func deref(t types.Type) types.Type {
 	panic(engineError{"deref of non-pointer " + t.String()})
 }
 
+var traceFn = os.Getenv("SYMGO_TRACE_FN")
+
 const maxCallDepth = 400
 
 // callFunction runs fn with args and returns its result.
@@ -516,9 +519,21 @@ func (fr *frame) run() {
 		}
 		next := false
 		for _, in := range b.Instrs[nphi:] {
+			if traceFn != "" && fr.fn.Name() == traceFn {
+				fmt.Fprintf(os.Stderr, "  [%s b%d] %s", fr.fn.Name(), b.Index, in)
+				if v, ok := in.(ssa.Value); ok {
+					defer func(v ssa.Value) {}(v)
+				}
+				fmt.Fprintln(os.Stderr)
+			}
 			if fr.exec(in) {
 				next = true
 				break
+			}
+			if traceFn != "" && fr.fn.Name() == traceFn {
+				if v, ok := in.(ssa.Value); ok {
+					fmt.Fprintf(os.Stderr, "      %s = %s\n", v.Name(), describe(fr.env[fr.fi.idx[v]]))
+				}
 			}
 		}
 		if !next {
@@ -739,6 +754,16 @@ func (ip *Interp) load(pv Value) Value {
 		panic(engineError{fmt.Sprintf("load through %T", pv)})
 	}
 	if p.Sym != nil {
+		if p.Sym.Cands != nil {
+			// read over the candidate cells only
+			T := ip.p.T
+			c := p.Sym.Cands
+			res := p.Sym.Arr[c[len(c)-1]].(*Term)
+			for i := len(c) - 2; i >= 0; i-- {
+				res = T.Ite(T.Cmp(OpEq, p.Sym.Idx, T.Const(p.Sym.Idx.W, uint64(c[i]))), p.Sym.Arr[c[i]].(*Term), res)
+			}
+			return res
+		}
 		return ip.symRead(p.Sym.Arr, p.Sym.Idx)
 	}
 	if p.Slot == nil {
@@ -753,12 +778,44 @@ func (ip *Interp) store(pv Value, v Value) {
 		panic(engineError{fmt.Sprintf("store through %T", pv)})
 	}
 	if p.Sym != nil {
-		panic(engineError{"store through symbolic reference"})
+		// weak update: every candidate cell becomes ite(idx == k, v, old)
+		if p.Sym.Cands == nil {
+			panic(engineError{"store through read-only symbolic reference"})
+		}
+		T := ip.p.T
+		nv := v.(*Term)
+		for _, k := range p.Sym.Cands {
+			old := p.Sym.Arr[k].(*Term)
+			p.Sym.Arr[k] = T.Ite(T.Cmp(OpEq, p.Sym.Idx, T.Const(p.Sym.Idx.W, uint64(k))), nv, old)
+		}
+		return
 	}
 	if p.Slot == nil {
 		ip.goPanic("nil pointer dereference (store)")
 	}
-	*p.Slot = copyVal(v)
+	assignInPlace(p.Slot, v)
+}
+
+// assignInPlace stores v into *dst. Aggregates are copied element-wise into the existing storage so
+// that field/element addresses taken earlier stay valid (Go semantics of assigning to a variable).
+func assignInPlace(dst *Value, v Value) {
+	switch nv := v.(type) {
+	case StructV:
+		if old, ok := (*dst).(StructV); ok && len(old) == len(nv) {
+			for i := range nv {
+				assignInPlace(&old[i], nv[i])
+			}
+			return
+		}
+	case ArrayV:
+		if old, ok := (*dst).(ArrayV); ok && len(old) == len(nv) {
+			for i := range nv {
+				assignInPlace(&old[i], nv[i])
+			}
+			return
+		}
+	}
+	*dst = copyVal(v)
 }
 
 // symRead reads arr[idx] for a symbolic, in-range idx.
@@ -905,7 +962,8 @@ func (ip *Interp) toIdx(v Value, t types.Type) *Term {
 	return ip.p.T.Zext(x, 64)
 }
 
-func onlyLoads(in *ssa.IndexAddr) bool {
+// onlyLoads reports whether the address is used only by loads (and, if allowStores, stores through it).
+func onlyLoads(in *ssa.IndexAddr, allowStores bool) bool {
 	refs := in.Referrers()
 	if refs == nil {
 		return false
@@ -916,12 +974,50 @@ func onlyLoads(in *ssa.IndexAddr) bool {
 			if r.Op != token.MUL {
 				return false
 			}
+		case *ssa.Store:
+			if !allowStores || r.Addr != ssa.Value(in) || r.Val == ssa.Value(in) {
+				return false
+			}
 		case *ssa.DebugRef:
 		default:
 			return false
 		}
 	}
 	return true
+}
+
+func allTerms(arr []Value) bool {
+	for _, e := range arr {
+		if _, ok := e.(*Term); !ok {
+			return false
+		}
+	}
+	return true
+}
+
+// candidates lists the indices idx may take (cheaply): all values of a single-variable term,
+// otherwise every index.
+func (ip *Interp) candidates(idx *Term, n int) []int {
+	if idx.sup != nil {
+		seen := map[uint64]bool{}
+		var out []int
+		model := map[string]uint64{}
+		for v := 0; v < 1<<uint(idx.sup.W); v++ {
+			model[idx.sup.Name] = uint64(v)
+			x := ip.p.T.Eval(idx, model, map[*Term]uint64{})
+			if x < uint64(n) && !seen[x] {
+				seen[x] = true
+				out = append(out, int(x))
+			}
+		}
+		sort.Ints(out)
+		return out
+	}
+	out := make([]int, n)
+	for i := range out {
+		out[i] = i
+	}
+	return out
 }
 
 func (ip *Interp) indexAddr(in *ssa.IndexAddr, x Value, idxv Value) Value {
@@ -944,8 +1040,13 @@ func (ip *Interp) indexAddr(in *ssa.IndexAddr, x Value, idxv Value) Value {
 	if idx.IsConst() {
 		return Pointer{Slot: &arr[idx.C]}
 	}
-	if onlyLoads(in) {
+	if onlyLoads(in, false) {
 		return Pointer{Sym: &symRef{Arr: arr, Idx: idx}}
+	}
+	if onlyLoads(in, true) && allTerms(arr) {
+		if c := ip.candidates(idx, len(arr)); len(c) <= 64 {
+			return Pointer{Sym: &symRef{Arr: arr, Idx: idx, Cands: c}}
+		}
 	}
 	i := ip.p.Concretize(idx)
 	return Pointer{Slot: &arr[i]}
